@@ -21,6 +21,43 @@ type NNICase struct {
 	Moves   []HOp  `json:"moves"`             // history of root moves through the API
 	Pattern []int  `json:"pattern"`           // per proposal (cyclic): bit 0 Apply twice, bit 1 Undo twice, bit 2 check structure through the API
 	Collect bool   `json:"collect,omitempty"` // true: the callback only stores the proposals, they are applied / undone in enumeration order afterwards
+	// TipRoot: the text presents the tree from one of its tips, "(subtree)A;": the root node has a single neighbour and a taxon name
+	TipRoot bool `json:"tiproot,omitempty"`
+}
+
+// tipRootText presents the unrooted tree m from its leaf number k: "(...)name;".
+func tipRootText(m *RNode, k int) string {
+	var leaves []*RNode
+	for _, x := range m.all() {
+		// a number after the last ')' is read as a support, not as a name: the root tip has a name that is not a number
+		if _, err := strconv.ParseFloat(x.Label, 64); x.IsTip() && err != nil {
+			leaves = append(leaves, x)
+		}
+	}
+	if len(leaves) == 0 {
+		return ""
+	}
+	return RerootAt(leaves[k%len(leaves)]).Newick()
+}
+
+// normTipRoot reads a root that has one child and a name as what gotree takes it for: a tip hanging from that child.
+func normTipRoot(m *RNode) *RNode {
+	if len(m.Children) != 1 || m.Label == "" || m.Children[0].IsTip() {
+		return m
+	}
+	c := m.Children[0]
+	leaf := &RNode{Label: m.Label, HasLen: c.HasLen, Len: c.Len, Parent: c}
+	c.Children = append(c.Children, leaf)
+	c.Parent, c.HasLen, c.Len, c.Label = nil, false, 0, ""
+	return c
+}
+
+func parseRefTipRoot(text string) (*RNode, error) {
+	m, err := ParseRef(text)
+	if err != nil {
+		return nil, err
+	}
+	return normTipRoot(m), nil
 }
 
 var rootMoves = []string{"reroot", "outgroup", "midpoint", "unroot", "rerootfirst", "rotate", "sort", "reinit", "graft", "grafttip", "nniapply"}
@@ -45,19 +82,29 @@ func init() {
 					x.Label = strconv.FormatFloat(float64(rapid.IntRange(0, 8).Draw(rt, "supv"))/8, 'f', -1, 64)
 				}
 			}
-			return &NNICase{Tree: m.Newick(), Moves: genOps(rt, rootMoves, 0, 4), Pattern: rapid.SliceOfN(rapid.IntRange(0, 15), 1, 8).Draw(rt, "pattern"),
+			c := &NNICase{Tree: m.Newick(), Moves: genOps(rt, rootMoves, 0, 4), Pattern: rapid.SliceOfN(rapid.IntRange(0, 15), 1, 8).Draw(rt, "pattern"),
 				Collect: rapid.IntRange(0, 2).Draw(rt, "collect") == 0}
+			if rapid.IntRange(0, 5).Draw(rt, "tiproot") == 5 {
+				// the same tree written from one of its tips (what a rooted tree with an outgroup of one looks like once the other root branch is gone)
+				if text := tipRootText(m, rapid.IntRange(0, 13).Draw(rt, "roottip")); text != "" {
+					c.TipRoot, c.Tree = true, text
+					if rapid.Bool().Draw(rt, "keeproot") {
+						c.Moves = nil // the root stays on the tip for the enumeration
+					}
+				}
+			}
+			return c
 		},
 		New:       func() any { return &NNICase{} },
 		Exec:      execC17,
 		Real:      []string{"tree.NNIRearranger.Rearrange", "nni.Apply / Undo", "Tree.Reroot / RerootOutGroup / RerootMidPoint / UnRoot / RemoveSingleNodes", "Newick writer"},
 		Simulated: []string{"the history of root moves before the enumeration", "the apply/undo pattern inside the callback", "global math/rand seam seeded per step"},
-		Expected:  []string{"rooted", "unrooted", "root-moved", "apply-twice", "undo-twice", "collected-then-applied", "applied-inside-callback", "nni-command", "nni-command-several-trees", "nested-enumeration", "second-enumeration-after-a-kept-move"},
+		Expected:  []string{"rooted", "unrooted", "root-moved", "apply-twice", "undo-twice", "collected-then-applied", "applied-inside-callback", "nni-command", "nni-command-several-trees", "nested-enumeration", "second-enumeration-after-a-kept-move", "root-is-a-tip"},
 	})
 }
 
 func splitKeysOf(text string, withTrivial bool) ([]string, error) {
-	m, err := ParseRef(text)
+	m, err := parseRefTipRoot(text)
 	if err != nil {
 		return nil, err
 	}
@@ -138,6 +185,9 @@ func execC17(t *testing.T, cc any, o *Outcome) {
 	if moved {
 		o.Probe("root-moved")
 	}
+	if tr.Root().Nneigh() == 1 {
+		o.Probe("root-is-a-tip")
+	}
 	orig := tr.Newick()
 	origAll, err := splitKeysOf(orig, true)
 	if err != nil {
@@ -146,7 +196,7 @@ func execC17(t *testing.T, cc any, o *Outcome) {
 	}
 	origInner, _ := splitKeysOf(orig, false)
 	origSplitInfo := map[string]*SplitInfo{}
-	if om, err := ParseRef(orig); err == nil && !rooted {
+	if om, err := parseRefTipRoot(orig); err == nil && !rooted {
 		// (for a rooted tree the two root branches share one split and an NNI next to the root may re-distribute them: left out)
 		origSplitInfo = om.Splits()
 	}
@@ -207,7 +257,7 @@ func execC17(t *testing.T, cc any, o *Outcome) {
 				return false
 			}
 			// every other branch is the same branch: its length travels with its split (tip branches included)
-			if am, err := ParseRef(after); err == nil {
+			if am, err := parseRefTipRoot(after); err == nil {
 				as := am.Splits()
 				for k, b := range origSplitInfo {
 					a, common := as[k]
@@ -354,7 +404,7 @@ func checkNNICommand(t *testing.T, o *Outcome, c *NNICase, orig string) {
 		inputs = append(inputs, c.Tree)
 	}
 	if len(c.Pattern) > 3 {
-		if m, err := ParseRef(c.Tree); err == nil {
+		if m, err := parseRefTipRoot(c.Tree); err == nil {
 			inputs = append(inputs, represent(m, mathRnd{rand.New(rand.NewSource(int64(len(orig))))}).Newick())
 		}
 	}
